@@ -8,19 +8,19 @@ import sys
 WHAT = {
     "C01": "all injective sector assignments of pools <= 7; partition sizes 6..139 (399); 14 pair lengths x 5 rates; 13 name families x 5 volume names; 8 sets of equal sibling volume names; slot sets; 63..510-file volumes",
     "C02": "all cluster assignments m<=3; all single / double edge flips; all 4-slot assignments; sparse / full / highest-slot lists under both count conventions; shared chains; fine bytes; blank names at every level",
-    "C03": "complete MSF domain; all position tuples over P, 10 tail residues; track numberings and mode spellings; 10 title families; 50/98/99-track sheets up to 80 KB",
+    "C03": "complete MSF domain; all position tuples over P, 10 tail residues; track numberings (incl. 3-4 digit numbers) and mode spellings; 10 title families; 50/98/99/100/103-track sheets up to 80 KB",
     "C04": "key x semitone x cents (thorough: full 256^3); every sample rate 0..65535 mono + stereo; 100 unequal pair lengths; short sources; C01's name families",
     "C05": "all ordered k<=3 / k<=4 tuples over 14 AKAI names, k<=2 / 3 over 13 Roland names (+ header-name, flavour, sanitised-form, dot-stem variants); 201-entry directories, every adjacent position",
-    "C06": "pairs / triples over 24+15+29 names, 5 levels + orphan volume; channel-letter triples; blank-run and dot-stem tuples; 26..34 partitions; 201-entry directories; listed-first objects; CDDA tracks without frames",
-    "C07": "ALL tables: links n<=6, AKAI SAT n<=6 over 13 word values, Roland FAT 12^5 (+ header words x version flags); chain lengths 1..65523 in real-size tables; table-level streams (Roland files from every cluster offset); tables through the real image parser",
+    "C06": "pairs / triples over 24+15+29 names, 5 levels + orphan volume; channel-letter triples; blank-run and dot-stem tuples; 26..34 partitions; 201-entry directories; listed-first objects; CDDA tracks without frames; one raw name as file and as directory",
+    "C07": "ALL tables: links n<=6, AKAI SAT n<=6 over 13 word values, Roland FAT 12^5 (+ header words x version flags); chain lengths 1..65523 in real-size tables; table-level streams (Roland files from every cluster offset, highest cluster numbers on a 600 MB virtual disk); tables through the real image parser",
     "C08": "single-view stacks to fixed point (2 real-size graphs depth 3 in quick); 23 two-view product graphs; 20 overhanging windows, all op sequences <= 3 / 4; 7 real-size stacks under long and small-consecutive reads",
     "C09": "case library x 11 containers x trailing sizes; sector counts 0..127 (511); dumps ending with the last used sector; long / multi-FILE / renamed sheets",
     "C10": "all variants per node (3 blank styles); all token sequences <=2; extensions, multi-colon tokens, doubled separators of every good path; programs and unlisted file kinds; titles of 255..302 characters",
-    "C11": "ALL interleavings per configuration (BytesIO and real files, damaged / incomplete images, two streams of one sample, two entries on one chain); baselines from one pristine subprocess per participant",
+    "C11": "ALL interleavings per configuration (BytesIO and real files, damaged / incomplete images, two streams of one sample, two entries on one chain, two volume entries on one directory); baselines from one pristine subprocess per participant",
     "C12": "complete product, both host byte orders",
     "C13": "all <=2-byte files, all single faults, all table-fault pairs, program fault pairs / triples, containers, Roland ID-area text fields (540), big text files, long titles, wide tables; growth at n / 2n for 12 families (generated code counted)",
-    "C14": "every byte x 15 values / x 256 values; whole-field boundary values incl. whole name fields; names one byte from a sibling and from a pair's stem",
-    "C15": "every byte of the 64 KiB AKAI image and of the bin; every 16th byte of the larger images; raw-sector delivery of the big image",
+    "C14": "every byte x 15 values / x 256 values; whole-field boundary values incl. whole name fields; names one byte from a sibling (exactly / up to a blank run) and from a pair's stem",
+    "C15": "every byte of the 64 KiB AKAI image and of the bin; every 16th byte of the larger images; raw-sector delivery of the big image; colliding volumes stored in reverse table order",
     "C16": "all histories <=2 / <=3 on 9 subjects (incl. a damaged and an incomplete image); cross-image histories",
     "C17": "all single and all pairs of transformations (7 pads, 24 unknown lines); bulk insertions up to 300 000 lines",
     "C18": "complete domains (functions, call sequences, construct adapters)",
